@@ -47,3 +47,7 @@ func VFailures() []string {
 	defer vMu.Unlock()
 	return append([]string(nil), vFailures...)
 }
+
+// VAssertLog / VObsLog: what this package's harness code evaluated natively.
+func VAssertLog() []string { vMu.Lock(); defer vMu.Unlock(); return append([]string(nil), vAssertLog...) }
+func VObsLog() []string    { vMu.Lock(); defer vMu.Unlock(); return append([]string(nil), vObsLog...) }
